@@ -18,6 +18,7 @@ package main
 // restores the heap at the end of a path).
 
 import (
+	"os"
 	"fmt"
 	"go/types"
 	"strings"
@@ -429,6 +430,12 @@ type undoRec struct {
 }
 
 func (vm *VM) setObj(o *Object, v Value) {
+	if w := vm.watch; w != nil && o.ID <= w.watermark && !sameValue(o.Val, v, 0) {
+		if os.Getenv("GOSYM_LOOPDBG") != "" {
+			fmt.Fprintf(os.Stderr, "LOOPDBG write obj%d %s: %s -> %s @ %s\n", o.ID, o.Name, showValue(o.Val), showValue(v), vm.where())
+		}
+		w.progress++
+	}
 	if o.Epoch == 0 && vm.epoch != 0 {
 		vm.undo = append(vm.undo, undoRec{o, o.Val})
 	}
@@ -856,4 +863,77 @@ func dynName(d interface{}) string {
 		return "syn:" + x.Name
 	}
 	return "?"
+}
+
+
+// sameValue: are the two values certainly the same?  (false when unsure)
+func sameValue(a, b Value, depth int) bool {
+	if depth > 6 {
+		return false
+	}
+	switch x := a.(type) {
+	case nil:
+		return b == nil
+	case *Term:
+		y, ok := b.(*Term)
+		if !ok {
+			return false
+		}
+		if x == y {
+			return true
+		}
+		return x.IsConst() && y.IsConst() && x.S == y.S && constSMT(x) == constSMT(y)
+	case StrV:
+		y, ok := b.(StrV)
+		return ok && !x.Sym && !y.Sym && !x.Opaque() && !y.Opaque() && x.C == y.C
+	case PtrV:
+		y, ok := b.(PtrV)
+		if !ok || x.Obj != y.Obj || x.Sym != y.Sym || len(x.Path) != len(y.Path) {
+			return false
+		}
+		for i := range x.Path {
+			if x.Path[i] != y.Path[i] {
+				return false
+			}
+		}
+		return true
+	case *StructV:
+		y, ok := b.(*StructV)
+		if !ok || len(x.F) != len(y.F) {
+			return false
+		}
+		if x == y {
+			return true
+		}
+		for i := range x.F {
+			if !sameValue(x.F[i], y.F[i], depth+1) {
+				return false
+			}
+		}
+		return true
+	case *ArrayV:
+		y, ok := b.(*ArrayV)
+		if !ok || len(x.E) != len(y.E) {
+			return false
+		}
+		if x == y {
+			return true
+		}
+		if len(x.E) > 64 {
+			return false
+		}
+		for i := range x.E {
+			if !sameValue(x.E[i], y.E[i], depth+1) {
+				return false
+			}
+		}
+		return true
+	case SliceV:
+		y, ok := b.(SliceV)
+		return ok && x.Arr == y.Arr && x.Off == y.Off && x.Len == y.Len && x.Cap == y.Cap && len(x.Path) == len(y.Path)
+	case IfaceV:
+		y, ok := b.(IfaceV)
+		return ok && x.Dyn == y.Dyn && sameValue(x.V, y.V, depth+1)
+	}
+	return false
 }
